@@ -52,27 +52,28 @@ type LsnCfg struct {
 }
 
 type WorldCfg struct {
-	Carrier           string
-	ServerCert        string // "", good, wronghost, untrusted, expired, short
-	RequireClientCert bool
-	ServerCertFiles   bool   // the server gets certificate and key as files (read on use) instead of inline PEM
-	ServerCA          string // CA the server trusts for client certificates: "", good, foreign
-	ClientCA          string // CA the client trusts: "", good, foreign
-	ClientCert        string // "", good, foreign, impostor (CA of the same name as the good one, other key)
-	ClientSecure      bool   // -s
-	ClientInsecure    bool   // -k
-	ClientCAFile      bool   // the client's CA certificate is given as a file (read at every connect)
-	UseHostName       bool   // upstream URL names server.test instead of the IP literal
-	ClientPassword    string // udp+pass: the client's secret (defaults to the server's)
-	Channels          []ChanCfg
-	ServerAllow       []string // allow-list of the server endpoint (nil = all)
-	WsPaths           []WsPath // extra websocket paths (ws/wss carriers)
-	ClientWsPath      string   // path the client connects to (default /ws/all)
-	Listeners         []LsnCfg
-	ExtraUpstreams    []string // tried before (Pre) or after the carrier's upstream
-	PreUpstreams      []string
-	NoClient          bool
-	NoServer          bool
+	Carrier                string
+	ServerCert             string // "", good, wronghost, untrusted, expired, short
+	RequireClientCert      bool
+	ServerCertFiles        bool   // the server gets certificate and key as files (read on use) instead of inline PEM
+	ServerCA               string // CA the server trusts for client certificates: "", good, foreign
+	ClientCA               string // CA the client trusts: "", good, foreign
+	ClientCert             string // "", good, foreign, impostor (CA of the same name as the good one, other key)
+	ClientSecure           bool   // -s
+	ClientInsecure         bool   // -k
+	ClientCAFile           bool   // the client's CA certificate is given as a file (read at every connect)
+	UseHostName            bool   // upstream URL names server.test instead of the IP literal
+	ClientPassword         string // udp+pass: the client's secret (defaults to the server's)
+	Channels               []ChanCfg
+	ServerAllow            []string // allow-list of the server endpoint (nil = all)
+	WsPaths                []WsPath // extra websocket paths (ws/wss carriers)
+	ClientWsPath           string   // path the client connects to (default /ws/all)
+	Listeners              []LsnCfg
+	ExtraUpstreams         []string // tried before (Pre) or after the carrier's upstream
+	PreUpstreams           []string
+	NoClient               bool
+	NoServer               bool
+	ServerMayRefuseToStart bool // a start-up error of the server is an accepted outcome (World.ServerStartErr)
 	// Multi-endpoint worlds (C16): rendered server entries and the explicit upstream list.
 	ServerEntries []string
 	Upstreams     []string
@@ -95,11 +96,12 @@ type World struct {
 	// stdio listener: harness side of the pipe, by channel
 	StdioApp map[string]*simrt.Conn
 
-	ServerYAML  string
-	ClientArgs  []string
-	UpstreamURL string
-	ServerAddr  string
-	interrupted chan os.Signal
+	ServerYAML     string
+	ClientArgs     []string
+	UpstreamURL    string
+	ServerAddr     string
+	ServerStartErr error
+	interrupted    chan os.Signal
 }
 
 func certFor(kind string) *KeyPair {
@@ -338,9 +340,16 @@ func BuildWorld(r *Run, cfg WorldCfg) (*World, error) {
 		}
 		n.SourceIP = ServerIP
 		if err := cmd.Startup(w.interrupted); err != nil {
-			return nil, &ConfigError{Side: "server-startup", Err: err}
+			if !cfg.ServerMayRefuseToStart {
+				return nil, &ConfigError{Side: "server-startup", Err: err}
+			}
+			// a configuration the server is entitled to reject: the world goes on without a server
+			w.ServerStartErr = err
+			r.Logf("server refused to start: %v", err)
+			w.Server = nil // (the real command exits at this point; nothing is shut down)
+		} else {
+			r.OnCleanup(func() { cmd.Shutdown() })
 		}
-		r.OnCleanup(func() { cmd.Shutdown() })
 	} else {
 		_, up, _ := serverEntry(&cfg, cfg.Carrier, CarrierPort(cfg.Carrier))
 		w.UpstreamURL = up
